@@ -2840,6 +2840,14 @@ fn base64_decode(input: &[u8]) -> Result<Vec<u8>, &'static str> {
     return Err("Base64 literal mixes the RFC 4648 base64 and base64url alphabets");
   }
 
+  // RFC 4648 Section 3.3/4: pad characters may only appear at the end. data_encoding
+  // would otherwise decode concatenated padded blocks ("YQ==YQ==").
+  if let Some(first_pad) = input.iter().position(|&b| b == b'=') {
+    if input[first_pad..].iter().any(|&b| b != b'=') {
+      return Err("Base64 padding is only allowed at the end of the literal");
+    }
+  }
+
   // The two alphabets differ only in `+/` versus `-_`, so a literal that uses
   // neither pair decodes identically under either one.
   let encoding = match (uses_classic, input.contains(&b'=')) {
